@@ -3544,6 +3544,191 @@ def k_dest_start(E, tier):
     return rec
 
 
+def k_nth(E, tier):
+    """C28: list.nth: for a list, a map and an argument list the element returned is the one at the index
+    that index_of computed from $n and the length of *that very* collection (the index arithmetic itself:
+    k_index_of); a map entry comes back as the unbracketed space list (key value); any other value acts as
+    the one-element list of itself."""
+    cssv = E.load_enum("css/value.rs", "Value", "css::value::Value")
+    seps = E.load_enum("value/list_separator.rs", "ListSeparator")
+    f = E.find(name_re=r"^list::create_module::\{closure#\d+\}$", contains=['const "n"', "OrderMap::<css::value::Value, css::value::Value>::get_item", "cloned"])
+    rec = Rec("list.nth closure", f, E)
+    ctx = E.ctx()
+    vals = {}
+
+    def full(ex, st, x):
+        while isinstance(x, sym.Ref):
+            x = ex.deref(st, x)
+        return x
+
+    def m_get_map(ex, st, c, a, d):
+        clos = [x for x in a if isinstance(x, sym.Agg)]
+        ok, err = st.fork(), st.fork()
+        idx = ctx.fresh_scalar(("bv", 64, False), "index")
+        e = sym.Event("get_map:n", a, idx, len(st.pc))
+        e.captured = [full(ex, st, v) for c_ in clos for k, v in c_.fields.items() if not k.isdigit()]
+        e.zerosized = any(isinstance(x, sym.FnItem) for x in a)
+        ok.events.append(e)
+        return [(ok, sym.Agg(d, "Ok", {"0": idx}, 0)), (err, sym.Agg(d, "Err", {"0": sym.Opaque("CallError", "e", ctx)}, 1))]
+
+    def m_index(ex, st, c, a, d):
+        e = sym.Event("index", a, None, len(st.pc))
+        e.rargs = [full(ex, st, a[0]), a[1]]
+        st.events.append(e)
+        o = sym.Opaque("css::value::Value", "element", ctx)
+        e.result = o
+        return sym.Ref("val", o)
+
+    def m_get_item(ex, st, c, a, d):
+        some, none = st.fork(), st.fork()
+        k, v = sym.Opaque("css::value::Value", "entry-key", ctx), sym.Opaque("css::value::Value", "entry-value", ctx)
+        for s2, r in ((some, "some"), (none, "none")):
+            e = sym.Event("get_item", a, r, len(st.pc))
+            e.rargs = [full(ex, st, a[0]), a[1]]
+            e.kv = (k, v)
+            s2.events.append(e)
+        return [(some, sym.Agg(d, "Some", {"0": sym.Ref("val", sym.Agg("pair", None, {"0": k, "1": v}))}, 1)), (none, sym.Agg(d, "None", {}, 0))]
+
+    def m_clone(ex, st, c, a, d):
+        return full(ex, st, a[0])
+
+    def m_vec2(ex, st, c, a, d):
+        return sym.Agg("Vec", "VEC", {"0": a[0]})
+
+    def m_slice_get(ex, st, c, a, d):
+        e = sym.Event("slice_get", a, None, len(st.pc))
+        e.rargs = [full(ex, st, a[0]), a[1]]
+        st.events.append(e)
+        return sym.Opaque(d or "Option", "positional.get", ctx)
+
+    def m_unwrap_or_else(ex, st, c, a, d):
+        e = sym.Event("arglist-element", a, None, len(st.pc))
+        e.rargs = [full(ex, st, x) for x in a]
+        st.events.append(e)
+        return sym.Agg("css::value::Value", "ARGLIST_ELEMENT", {"0": e.rargs[0], "1": e.rargs[1] if len(e.rargs) > 1 else None})
+
+    def m_result_map(ex, st, c, a, d):
+        x = a[0]
+        if isinstance(x, sym.Agg) and x.variant == "Ok":
+            clos = a[1] if len(a) > 1 else None
+            v = full(ex, st, clos.fields.get("v")) if isinstance(clos, sym.Agg) and "v" in clos.fields else None
+            return sym.Agg(d, "Ok", {"0": v if v is not None else sym.Opaque("css::value::Value", "mapped", ctx)}, 0)
+        return x if isinstance(x, sym.Agg) else None
+
+    models = [
+        (r"^ResolvedArgs::get_map::<usize", m_get_map), (r"^<Vec<css::value::Value> as Index<usize>>::index$", m_index),
+        (r"^OrderMap::<css::value::Value, css::value::Value>::get_item$", m_get_item), (r"^<css::value::Value as Clone>::clone$", m_clone),
+        (r"^<Vec<css::value::Value> as Deref>::deref$", lambda ex, st, c, a, d: sym.Ref("val", full(ex, st, a[0]))),
+        (r"^core::slice::<impl \[css::value::Value\]>::get::<usize>$", m_slice_get), (r"^Option::<&css::value::Value>::cloned$", lambda ex, st, c, a, d: a[0]),
+        (r"^Option::<css::value::Value>::unwrap_or_else::<", m_unwrap_or_else),
+        (r"^std::boxed::box_assume_init_into_vec_unsafe::<", m_vec2), (r"^std::result::Result::<usize, CallError>::map::<", m_result_map),
+    ] + _color_fn_models(E, ctx, vals)
+    ex = sym.Executor(ctx, models=models, feasibility=E.feasibility(ctx), max_paths=4000)
+    paths = [p for p in ex.run(f, [sym.Opaque("closure", "self", ctx), sym.Opaque("&ResolvedArgs", "s", ctx)]) if p.status == "return"]
+    rec.paths = len(paths)
+    lst = vals.get("list")
+    if lst is None:
+        rec.add("the closure reads $list (shape not recognised)", {"verdict": "inconclusive", "per_solver": {}, "time_s": 0})
+        return rec
+    D = lst.discriminant().term
+    seen = set()
+    for i, p in enumerate(paths):
+        if not (isinstance(p.ret, sym.Agg) and p.ret.variant == "Ok"):
+            continue
+        out = p.ret.fields["0"]
+        gm = [e for e in p.events if e.callee == "get_map:n"]
+        if len(gm) != 1:
+            rec.add("path %d: $n is read once through an index checker (shape not recognised)" % i, {"verdict": "inconclusive", "per_solver": {}, "time_s": 0})
+            continue
+        idx = gm[0].result
+        ix = [e for e in p.events if e.callee == "index"]
+        gi = [e for e in p.events if e.callee == "get_item"]
+        sg = [e for e in p.events if e.callee == "slice_get"]
+        if ix:
+            vec = lst.children.get("List.0")
+            ok = len(ix) == 1 and ix[0].rargs[0] is vec and ix[0].rargs[1] is idx and out is ix[0].result and any(c_ is vec for c_ in gm[0].captured)
+            r = E.decide(ctx, p.pc + ["(not (= %s %s))" % (D, bvlit(cssv.index("List"), 64))])
+            rec.add("path %d [list]: returns (a copy of) list[i], i computed by the checker that captured this very list" % i,
+                    r if ok else {"verdict": "violated", "per_solver": {"structural": "event identity"}, "time_s": 0})
+            seen.add("list")
+        elif gi:
+            mp = lst.children.get("Map.0")
+            good = len(gi) == 1 and gi[0].rargs[0] is mp and gi[0].rargs[1] is idx and any(c_ is mp for c_ in gm[0].captured)
+            if gi[0].result == "some":
+                k, v = gi[0].kv
+                stored = [e.args[1] for e in p.events if e.callee == "store-opaque"]   # vec![k, v] is written into a fresh box
+                has = lambda x: _payload_contains(out.fields["0"], x) or any(_payload_contains(sv, x) for sv in stored)
+                shape = (isinstance(out, sym.Agg) and out.variant == "List" and has(k) and has(v)
+                         and isinstance(out.fields["1"], sym.Agg) and out.fields["1"].variant == "Some" and isinstance(out.fields["1"].fields["0"], sym.Agg)
+                         and out.fields["1"].fields["0"].variant == "Space" and isinstance(out.fields["2"], sym.Scalar) and out.fields["2"].term == "false")
+                good = good and shape
+            else:
+                good = good and isinstance(out, sym.Agg) and out.variant == "Null"
+            r = E.decide(ctx, p.pc + ["(not (= %s %s))" % (D, bvlit(cssv.index("Map"), 64))])
+            rec.add("path %d [map/%s]: entry i of this very map as the unbracketed space list (key value)" % (i, gi[0].result),
+                    r if good else {"verdict": "violated", "per_solver": {"structural": "event identity / shape"}, "time_s": 0})
+            seen.add("map")
+        elif sg:
+            al = lst.children.get("ArgList.0")
+            good = isinstance(out, sym.Agg) and out.variant == "ARGLIST_ELEMENT" and sg[0].rargs[1] is idx and any(c_ is al for c_ in gm[0].captured)
+            r = E.decide(ctx, p.pc + ["(not (= %s %s))" % (D, bvlit(cssv.index("ArgList"), 64))])
+            rec.add("path %d [arglist]: positional[i], else the (i - #positional)-th keyword pair, i computed for this very argument list" % i,
+                    r if good else {"verdict": "violated", "per_solver": {"structural": "event identity"}, "time_s": 0})
+            seen.add("arglist")
+        else:
+            good = out is lst and gm[0].zerosized
+            r = E.decide(ctx, p.pc + ["(or (= %s %s) (= %s %s) (= %s %s))" % (D, bvlit(cssv.index("List"), 64), D, bvlit(cssv.index("Map"), 64), D, bvlit(cssv.index("ArgList"), 64))])
+            rec.add("path %d [single value]: any other value is the one-element list of itself (the value comes back once $n passed the length-1 check)" % i,
+                    r if good else {"verdict": "violated", "per_solver": {"structural": "event identity"}, "time_s": 0})
+            seen.add("single")
+    need = {"list", "map", "arglist", "single"}
+    if not need <= seen:
+        rec.add("all four kinds of $list explored (%s missing)" % sorted(need - seen), {"verdict": "inconclusive", "per_solver": {}, "time_s": 0})
+    # the checker closures: index_of(v, len(captured collection)); the single-value one: index_of(v, 1)
+    inner = [g for g in E.funcs if g.name.startswith(f.name + "::{closure#") and "index_of" in g.source()]
+    n_ok = 0
+    for g in inner:
+        ctx2 = E.ctx()
+
+        def m_len(ex2, st, c, a, d, ctx2=ctx2):
+            o = ctx2.fresh_scalar(("bv", 64, False), "len")
+            e = sym.Event("len", a, o, len(st.pc))
+            e.rargs = [ex2.resolve_ref(st, x) for x in a]
+            st.events.append(e)
+            return o
+
+        def m_io(ex2, st, c, a, d, ctx2=ctx2):
+            o = sym.Opaque(d, "index_of", ctx2)
+            st.events.append(sym.Event("index_of", a, o, len(st.pc)))
+            return o
+
+        ex2 = sym.Executor(ctx2, models=[(r"::len$", m_len), (r"^index_of$", m_io)] + BASE_MODELS)
+        v = sym.Opaque("css::value::Value", "v", ctx2)
+        env = sym.Opaque("&closure", "env", ctx2)
+        try:
+            ps = [p for p in ex2.run(g, [env, v]) if p.status == "return"]
+        except sym.Unsupported:
+            continue
+        for p in ps:
+            io = [e for e in p.events if e.callee == "index_of"]
+            ln = [e for e in p.events if e.callee == "len"]
+            if len(io) != 1:
+                continue
+            if ln:
+                cap = ln[0].rargs[0]
+                from_env = isinstance(cap, sym.Opaque) and cap.name.startswith("env")
+                ok = io[0].args[0] is v and io[0].args[1] is ln[0].result and p.ret is io[0].result and from_env
+                what = "index_of(v, len(captured collection))"
+            else:
+                ok = io[0].args[0] is v and isinstance(io[0].args[1], sym.Scalar) and io[0].args[1].term == bvlit(1, 64) and p.ret is io[0].result
+                what = "index_of(v, 1)"
+            n_ok += ok
+            rec.add("%s: returns %s" % (g.name.split("::")[-1], what), {"verdict": "holds" if ok else "violated", "per_solver": {"structural": "event identity"}, "time_s": 0})
+    if n_ok < 4:
+        rec.add("the four index checker closures were found (%d)" % n_ok, {"verdict": "inconclusive", "per_solver": {}, "time_s": 0})
+    return rec
+
+
 def k_value_eq_symmetric(E, tier):
     """C12: css::Value::eq is symmetric as a function of the two values' kinds and of the (symmetric)
     comparisons of their parts: eq(a,b) and eq(b,a) are executed symbolically and must be the same
